@@ -814,7 +814,7 @@ func revocationRandomizersRule(P *Program, R *Report) {
 			continue
 		}
 		gens[g] = s.key
-		t := be.At[g]
+		t := be.at(g)
 		w, has := want[s.key]
 		ok := has && len(t) == 1 && t[0].equal(w)
 		got := ""
@@ -830,7 +830,7 @@ func revocationRandomizersRule(P *Program, R *Report) {
 			g := genCallOf(s.val)
 			ok := g != nil && calleeName(g) == "common.FastRandomBigInt"
 			if ok {
-				t := be.At[g]
+				t := be.at(g)
 				ok = len(t) == 1 && t[0].equal(nDiv4)
 				r[s.key] = g
 			}
